@@ -86,6 +86,7 @@ Proof.
   - destruct (busy s) as [[a c]|]; [|discriminate]. destruct (mem c (pending s)); [discriminate|].
     destruct (deliver_conn a c (pend s) (threads s)) as [pe ths] eqn:D. injection H as <-. ssimpl.
     split; [|reflexivity]. eapply deliver_conn_keeps; eauto.
+  - injection H as <-. ssimpl. split; [|reflexivity]. rewrite nth_error_app1; [exact Ht|eapply nth_error_lt; eauto].
 Qed.
 
 Lemma do_step_keeps : forall s a i t w,
@@ -148,6 +149,7 @@ Proof.
   - injection H as <-. reflexivity.
   - destruct (busy s) as [[a c]|]; [|discriminate]. destruct (mem c (pending s)); [discriminate|].
     destruct (deliver_conn a c (pend s) (threads s)) as [pe ths]. injection H as <-. reflexivity.
+  - injection H as <-. reflexivity.
 Qed.
 
 Lemma do_step_pending_same : forall s a,
@@ -317,6 +319,7 @@ Proof.
   - destruct (busy s) as [[a c]|]; [|discriminate]. destruct (mem c (pending s)); [discriminate|].
     destruct (deliver_conn a c (pend s) (threads s)) as [pe ths] eqn:D. injection H as <-. ssimpl.
     destruct (deliver_conn_same_owners _ _ _ _ _ _ D) as [L _]. lia.
+  - injection H as <-. ssimpl. rewrite app_length. lia.
 Qed.
 
 Lemma do_step_nthreads : forall s a, length (threads s) <= length (threads (do_step s a)).
